@@ -32,6 +32,7 @@ import FqeVerif.Lemmas.Address
 import FqeVerif.Lemmas.Gosper
 import FqeVerif.Lemmas.MapSet
 import FqeVerif.Lemmas.Deexc
+import FqeVerif.Lemmas.PyInt
 namespace C05
 open Model Fock
 
@@ -261,5 +262,31 @@ theorem C05_deexc_nodup (norb : Nat) (strings : List Nat) (hn : strings.Nodup) :
     ((List.range norb).flatMap fun i => (List.range norb).flatMap fun j =>
         (buildMapping strings i j).map fun (s, t, p) => (t, s, i * norb + j, p)).Nodup :=
   allEntries_nodup norb strings hn
+
+/-! ### the Python helpers as they stand in /repo (translated on every run by `harness/translate/pyint.py`) -/
+
+/-- the *generated* translations of `bitstring.py`'s `get_bit`, `set_bit`, `unset_bit` (Python ints as `Int` with
+    two's-complement `& | ~ <<`) are the `Nat` helpers of Model/Bits.lean, for every string and position -/
+theorem C05_py_setget (s p : Nat) :
+    GenPy.get_bit (s : Int) (p : Int) = (getBit s p : Nat) ∧
+    GenPy.set_bit (s : Int) (p : Int) = (setBit s p : Nat) ∧
+    GenPy.unset_bit (s : Int) (p : Int) = (unsetBit s p : Nat) :=
+  ⟨GenPy.py_get_bit s p, GenPy.py_set_bit s p, GenPy.py_unset_bit s p⟩
+
+/-- the generated `count_bits`, `count_bits_above`, `count_bits_below`, `count_bits_between` are the model helpers,
+    for every (unbounded) string and all positions -/
+theorem C05_py_counts (s p q : Nat) :
+    GenPy.count_bits (s : Int) = (countBits s : Nat) ∧
+    GenPy.count_bits_above (s : Int) (p : Int) = (countBitsAbove s p : Nat) ∧
+    GenPy.count_bits_below (s : Int) (p : Int) = (countBitsBelow s p : Nat) ∧
+    GenPy.count_bits_between (s : Int) (p : Int) (q : Int) = (countBitsBetween s p q : Nat) :=
+  ⟨GenPy.py_count_bits s, GenPy.py_count_bits_above s p, GenPy.py_count_bits_below s p,
+   GenPy.py_count_bits_between s p q⟩
+
+/-- the generated `reverse_integer_index` (a fold of `set_bit`) and `init_bitstring_groundstate` -/
+theorem C05_py_reverse_index (occ : List Nat) (n : Nat) :
+    GenPy.reverse_integer_index (occ.map (fun (k : Nat) => (k : Int))) = (reverseIntegerIndex occ : Nat) ∧
+    GenPy.init_bitstring_groundstate (n : Int) = ((2 ^ n - 1 : Nat) : Int) :=
+  ⟨GenPy.py_reverse_integer_index occ, GenPy.py_init_bitstring_groundstate n⟩
 
 end C05
